@@ -26,6 +26,10 @@ type FuncResult struct {
 	Truncated bool
 	HasContract bool
 	SpecErrors []string
+	// requires clauses that no longer bind to the code (an identifier they name disappeared) and
+	// were therefore not assumed: what fails in this function afterwards is "contract stale",
+	// not a violation
+	StaleRequires []string
 	Vacuity   *Oblig
 	Decls     string
 	Exec      *Exec
@@ -201,6 +205,7 @@ func verifyFunction(L *Loaded, cs *ContractSet, fn *ssa.Function, opts VerifyOpt
 			env.errs = &specErrs
 			if len(errs) > 0 {
 				x.note("stale requires dropped (does not bind to the code): %s", c.Src)
+				res.StaleRequires = append(res.StaleRequires, c.Src)
 				delete(x.notes, "spec-error: "+errs[0])
 				continue
 			}
